@@ -352,6 +352,22 @@ func (w *walker) leafs(stmts []ast.Stmt, rs *ast.RangeStmt, lk *leafKinds, inNes
 				w.leafs(c.(*ast.CaseClause).Body, rs, lk, true)
 			}
 		case *ast.AssignStmt:
+			// `_ = f(…)`: a call executed for its effect
+			allBlank := true
+			for _, l := range x.Lhs {
+				if id, ok := l.(*ast.Ident); !ok || id.Name != "_" {
+					allBlank = false
+				}
+			}
+			if allBlank {
+				for _, r := range x.Rhs {
+					if c, ok := r.(*ast.CallExpr); ok {
+						if tv, ok := w.p.TypesInfo.Types[c.Fun]; !ok || !tv.IsType() {
+							lk.effect = true
+						}
+					}
+				}
+			}
 			for i, l := range x.Lhs {
 				var r ast.Expr
 				if len(x.Rhs) == len(x.Lhs) {
